@@ -13,5 +13,5 @@ cd /verif
 t0=$(date +%s)
 VERIF_REPO=$wt ./vcheck $prop $tier > /tmp/sw/$id-$prop.out 2>&1; rc=$?
 t1=$(date +%s)
-echo "$id $prop rc=$rc wall=$((t1-t0))s $(grep -m1 '^HELD\|^INCONCLUSIVE\|^RESULT' /tmp/sw/$id-$prop.out | cut -c1-120)"
-grep "class:" /tmp/sw/$id-$prop.out | head -${CL:-3} | cut -c1-180
+echo "$id $prop rc=$rc wall=$((t1-t0))s $(grep -a -m1 '^HELD\|^INCONCLUSIVE\|^RESULT' /tmp/sw/$id-$prop.out | cut -c1-120)"
+grep -a "class:" /tmp/sw/$id-$prop.out | head -${CL:-3} | cut -c1-180
